@@ -23,6 +23,8 @@ REPLAY_DIR = os.path.join(VERIF, "replays")
 FINDINGS_FILE = os.path.join(VERIF, "known_findings.json")
 
 UNSET = object()
+WARM_P = 0.25  # share of executions in which objects are used before anything is derived from them
+WARM_RNG = None
 
 
 def jsonable(x, depth=0):
@@ -84,6 +86,10 @@ class Ctx:
         self.exhaustive = False
         self._known = load_known(prop)
         self.budget_s: float | None = None
+        global WARM_RNG
+        import random as _r
+
+        WARM_RNG = _r.Random(f"warm:{prop}:{seed}:{shard[0]}")
 
     # ---- counting -------------------------------------------------------
     def case(self, shape=None, nontrivial: bool = True, sample=None):
@@ -298,6 +304,7 @@ def execute(
     map_over=None,
     map_mode="zip",
     clone=False,
+    warm: bool | None = None,
 ) -> Outcome:
     """Build (if given a spec) and run once on the real runner; everything observed
     lands in out.rec."""
@@ -306,12 +313,14 @@ def execute(
 
     rt.install_taps()
     out = Outcome()
+    if warm is None:
+        warm = WARM_RNG is not None and WARM_RNG.random() < WARM_P
     if isinstance(spec_or_built, Built):
         built = spec_or_built
     else:
         if not keep_program:
             rt.reset_program()
-        built = build_program(spec_or_built)
+        built = build_program(spec_or_built, warm_inputs=(dict(inputs) if warm else None))
     out.built = built
     rt.FAIL.clear()
     if fail:
